@@ -68,7 +68,7 @@ func (m *c13mem) expect(a uint32) byte {
 }
 
 func C13(r *vf.Run) {
-	r.Rule = "histories of 1-40 Attach calls over overlapping/adjacent/nested/re-attached aligned ranges (from one block to a dozen whole banks, with small overlays inside wide ranges) and misaligned ones, with instrumented fake memories and real memory.RAM/ROM at non-zero offsets; routing of every block in and next to each range, and of the same offsets in neighbouring banks and pages, probed through EaRead/EaWrite against a shadow map; EaDump over ranges with every start residue and lengths {1,2,15,16,17,31,32,33,4096} across memory/memory and memory/hole boundaries with sentinel-filled output; a cell is (overlap shape), (misaligned residue) or (dump: start residue, length class, boundary kind)"
+	r.Rule = "histories of 1-40 Attach calls over overlapping/adjacent/nested/re-attached aligned ranges (from one block to a dozen whole banks, with small overlays inside wide ranges) and misaligned ones, with instrumented fake memories and real memory.RAM/ROM at non-zero offsets; routing of every block in and next to each range, and of the same offsets in neighbouring banks and pages, probed through EaRead/EaWrite against a shadow map, then unprobed mixed sequences of EaRead/EaWrite/EaRead24_wrap with block locality; EaDump over ranges with every start residue and lengths {1,2,15,16,17,31,32,33,4096} across memory/memory and memory/hole boundaries with sentinel-filled output; a cell is (overlap shape), (misaligned residue) or (dump: start residue, length class, boundary kind)"
 	r.Assume = []string{"Attach ranges beyond 24 bits or with start > end are outside 'successful Attach calls over aligned ranges'"}
 
 	type probeRes struct {
@@ -361,6 +361,95 @@ func C13(r *vf.Run) {
 			r.Sample(hist)
 		}
 
+		// ---- mixed access sequences (EaRead / EaWrite / EaRead24_wrap) with block locality: no probing
+		// in between, so state the bus keeps from one access to the next is exercised
+		if len(ranges) > 0 {
+			var seq []string
+			lastA := ranges[g.Intn(len(ranges))][0]
+			for k := 0; k < 80 && !r.TooMany(); k++ {
+				a := lastA&^15 | uint32(g.Intn(16))
+				switch g.Intn(5) {
+				case 0:
+					pr := ranges[g.Intn(len(ranges))]
+					a = pr[0] + uint32(g.Intn(int(pr[1]-pr[0]+1)))
+				case 1:
+					a += 16
+				case 2:
+					if a >= 16 {
+						a -= 16
+					}
+				}
+				if a > 0xFFFFFF {
+					a = 0xFFFFFF
+				}
+				if len(seq) > 6 {
+					seq = seq[1:]
+				}
+				expectAt := func(x uint32) (byte, *c13mem, bool) {
+					mi, ok := shadow[x>>4]
+					if !ok {
+						return 0, nil, false
+					}
+					return mems[mi].expect(x), mems[mi], true
+				}
+				switch g.Intn(4) {
+				case 0, 1:
+					want, _, att := expectAt(a)
+					res := read(b, a)
+					seq = append(seq, fmt.Sprintf("EaRead($%06x)", a))
+					r.Eval(1)
+					if res.panicked == att || (att && res.v != want) {
+						r.Fail("sequence-read", fmt.Sprintf("after %v: EaRead($%06x) = (%02x, panicked=%v), expected (%02x, attached=%v)", seq, a, res.v, res.panicked, want, att), hist)
+						return
+					}
+					cells["seq:read"]++
+				case 2:
+					_, m, att := expectAt(a)
+					nv := g.U8()
+					pan := write(b, a, nv)
+					seq = append(seq, fmt.Sprintf("EaWrite($%06x,%02x)", a, nv))
+					r.Eval(1)
+					if pan == att {
+						r.Fail("sequence-write", fmt.Sprintf("after %v: EaWrite($%06x) panicked=%v, attached=%v", seq, a, pan, att), hist)
+						return
+					}
+					if att && !m.rom {
+						got := byte(0)
+						if m.fake != nil {
+							got = m.fake.written[a]
+						} else {
+							got = m.data[a-m.offset]
+						}
+						if got != nv {
+							r.Fail("sequence-write", fmt.Sprintf("after %v: the write of %02x to $%06x did not reach the memory attached there", seq, nv, a), hist)
+							return
+						}
+					}
+					cells["seq:write"]++
+				default:
+					bank, off := byte(a>>16), uint16(a)
+					var want uint32
+					att := true
+					for j := 0; j < 3; j++ {
+						v, _, ok := expectAt(uint32(bank)<<16 | uint32(off+uint16(j)))
+						att = att && ok
+						want |= uint32(v) << (8 * uint(j))
+					}
+					var got uint32
+					pan := vf.Try(func() { got = b.EaRead24_wrap(bank, off) })
+					seq = append(seq, fmt.Sprintf("EaRead24_wrap($%02x,$%04x)", bank, off))
+					r.Eval(1)
+					if (pan != nil) == att || (att && got != want) {
+						r.Fail("sequence-read24", fmt.Sprintf("after %v: EaRead24_wrap = ($%06x, panic=%v), expected ($%06x, all three attached=%v)", seq, got, pan, want, att), hist)
+						return
+					}
+					cells["seq:read24"]++
+					a = uint32(bank)<<16 | uint32(off+2)
+				}
+				lastA = a
+			}
+		}
+
 		// ---- EaDump
 		nd := 50
 		for di := 0; di < nd && len(ranges) > 0 && !r.TooMany(); di++ {
@@ -468,7 +557,7 @@ func C13(r *vf.Run) {
 		})
 	}
 	if r.OnlyPhase == "" {
-		for _, c := range []string{"attach:nested", "attach:wide", "attach:nested-in-wide", "attach:reattach-same", "attach:adjacent-after", "attach:overlap-tail", "dump-boundary:mem>mem", "dump-boundary:mem>hole", "dump-boundary:hole>mem"} {
+		for _, c := range []string{"seq:read24", "seq:write", "attach:nested", "attach:wide", "attach:nested-in-wide", "attach:reattach-same", "attach:adjacent-after", "attach:overlap-tail", "dump-boundary:mem>mem", "dump-boundary:mem>hole", "dump-boundary:hole>mem"} {
 			r.Require(c)
 		}
 	}
